@@ -18,8 +18,9 @@ import SimuVerif.Lemmas.C09_Pop
     • the cut itself (`add_point_to_face`, `divide_faces`) keeps the surface closed, keeps the node set and the volume
     • every surface face goes to exactly one daughter, targets are halved, the type is inherited
     • ids: two fresh consecutive ids per division, counter advanced by two, id invariant of the population preserved
-    • the rotation built from the quaternion is orthogonal and maps the plane normal to z unless n = −z, where the
-      quaternion is 0 (the code then fails cleanly: an observation, not a defect)
+    • the rotation built from the quaternion of the oriented plane normal (`plane_normal = ±n`, third component ≥ 0) is
+      orthogonal, is defined for EVERY unit normal (w ≥ 1) and maps the division plane onto the xy plane; the raw
+      construction (1 + p·z, p×z) vanishes at p = −z, which the orientation step excludes
     • a round in which no division succeeds leaves list, ids, counter and every cell unchanged up to the injective
       renumbering of `rebase`; in any round every cell that does not divide survives with its surface
 
@@ -313,29 +314,114 @@ theorem quat_matrix_orthogonal_cols (w i j k : R) (h : w * w + i * i + j * j + k
     V3.dot M.2.1 M.2.1 = 1 ∧ V3.dot M.2.1 M.2.2 = 0 ∧ V3.dot M.2.2 M.2.2 = 1 :=
   quat_cols_orthonormal w i j k h
 
-/-- **`n` unit, `n ≠ −z` → `M n = z`** for the rotation of `map_points_to_xy_plane` (`sqrt` exact on the squared norm) -/
-theorem quat_maps_normal (fn : Fn R) (n : V3 R) (hn : V3.normSq n = 1) (hne : n ≠ ⟨0, 0, -1⟩)
+/-- **the orientation step** of `map_points_to_xy_plane` (`plane_normal = (n.dz() < 0.) ? n * (-1.) : n`, regenerated): the
+    normal the rotation is built from has a third component `≥ 0` … -/
+theorem plane_normal_nonneg (n : V3 R) : 0 ≤ (Gen.Division.planeNormalOf n).z :=
+  Division.plane_normal_nonneg n
+
+/-- … and is `n` or `−n`: same length, same plane `{x : n·x = 0}` -/
+theorem plane_normal_same_plane (n : V3 R) :
+    (Gen.Division.planeNormalOf n = n ∨ Gen.Division.planeNormalOf n = ⟨-n.x, -n.y, -n.z⟩) ∧
+    V3.normSq (Gen.Division.planeNormalOf n) = V3.normSq n ∧
+    ∀ x : V3 R, V3.dot (Gen.Division.planeNormalOf n) x = 0 ↔ V3.dot n x = 0 :=
+  ⟨by rcases Division.planeNormalOf_cases n with ⟨_, e⟩ | ⟨_, e⟩
+      · exact Or.inr e
+      · exact Or.inl e,
+   Division.plane_normal_normSq n, Division.plane_normal_same_plane n⟩
+
+/-- **the quaternion of the code is never singular**: for every unit division normal (whichever sign the eigen-solver
+    returned) `w = 1 + plane_normal·z ≥ 1 > 0` and the squared norm handed to `normalize` is `≥ 2` -/
+theorem quat_never_singular (n : V3 R) (hn : V3.normSq n = 1) :
+    let q := Gen.Division.quatOfNormal (Gen.Division.planeNormalOf n)
+    1 ≤ q.1 ∧ 2 ≤ q.1 * q.1 + q.2.1 * q.2.1 + q.2.2.1 * q.2.2.1 + q.2.2.2 * q.2.2.2 :=
+  Division.quat_never_singular n hn
+
+/-- **`n` unit → `M plane_normal = z`, and `M` maps the division plane `{x : n·x = 0}` into the xy plane** — for EVERY unit
+    `n`, no exception (`M` = the rotation `map_points_to_xy_plane` builds from the quaternion of `plane_normal`; `sqrt` exact
+    on the squared norm of the quaternion).  Before the orientation step this needed `n ≠ −z` -/
+theorem quat_maps_normal (fn : Fn R) (n : V3 R) (hn : V3.normSq n = 1)
+    (hs : fn.sqrt (2 * (1 + (Gen.Division.planeNormalOf n).z)) * fn.sqrt (2 * (1 + (Gen.Division.planeNormalOf n).z))
+      = 2 * (1 + (Gen.Division.planeNormalOf n).z)) :
+    let M := Gen.Division.quatToMatrix (Gen.Division.quatNormalize fn (Gen.Division.quatOfNormal (Gen.Division.planeNormalOf n)))
+    Gen.Division.matDot M (Gen.Division.planeNormalOf n) = ⟨0, 0, 1⟩ ∧
+    ∀ x : V3 R, V3.dot n x = 0 → (Gen.Division.matDot M x).z = 0 :=
+  ⟨Division.quat_maps_plane_normal fn n hn hs, fun x hx => Division.quat_maps_plane fn n hn hs x hx⟩
+
+/-- the same for the rotation the MODEL of `map_points_to_xy_plane` uses (`Division.rotationOf`: orientation step, identity
+    shortcut, else quaternion): every unit normal, both branches -/
+theorem rotation_maps_plane (fn : Fn R) (n : V3 R) (hn : V3.normSq n = 1)
+    (hs : fn.sqrt (2 * (1 + (Gen.Division.planeNormalOf n).z)) * fn.sqrt (2 * (1 + (Gen.Division.planeNormalOf n).z))
+      = 2 * (1 + (Gen.Division.planeNormalOf n).z)) :
+    Gen.Division.matDot (rotationOf fn n) (Gen.Division.planeNormalOf n) = ⟨0, 0, 1⟩ ∧
+    ∀ x : V3 R, V3.dot n x = 0 → (Gen.Division.matDot (rotationOf fn n) x).z = 0 := by
+  unfold rotationOf
+  simp only
+  split
+  · rename_i h
+    have hp := Division.identity_case_sound _ ((Division.plane_normal_normSq n).trans hn) h
+    have hid : ∀ v : V3 R, Gen.Division.matDot identity33 v = v := by
+      intro v
+      apply V3.ext' <;> simp only [identity33, Gen.Division.matDot, lit_one, lit_zero] <;> ring
+    refine ⟨by rw [hid, hp], fun x hx => ?_⟩
+    rw [hid]
+    have h0 := (Division.plane_normal_same_plane n x).2 hx
+    rw [hp] at h0
+    simp only [V3.dot_def] at h0
+    linarith
+  · exact ⟨Division.quat_maps_plane_normal fn n hn hs, fun x hx => Division.quat_maps_plane fn n hn hs x hx⟩
+
+/-- non-vacuity at the direction that used to be singular: over ℚ, `n = −z` is a unit normal, its `plane_normal` is `z`, and
+    `sqrt` (here `sqrt 4 = 2`) is exact on the squared norm of the quaternion — every hypothesis of `quat_maps_normal` /
+    `rotation_maps_plane` holds there -/
+example : ∃ (fn : Fn ℚ) (n : V3 ℚ), n = ⟨0, 0, -1⟩ ∧ V3.normSq n = 1 ∧ Gen.Division.planeNormalOf n = ⟨0, 0, 1⟩ ∧
+    fn.sqrt (2 * (1 + (Gen.Division.planeNormalOf n).z)) * fn.sqrt (2 * (1 + (Gen.Division.planeNormalOf n).z))
+      = 2 * (1 + (Gen.Division.planeNormalOf n).z) := by
+  have h : Gen.Division.planeNormalOf (⟨0, 0, -1⟩ : V3 ℚ) = ⟨0, 0, 1⟩ := by
+    rcases Division.planeNormalOf_cases (⟨0, 0, -1⟩ : V3 ℚ) with ⟨_, e⟩ | ⟨h, _⟩
+    · rw [e]; norm_num
+    · exact absurd (by norm_num) h
+  refine ⟨⟨fun _ => 2, id, id, id, fun _ => 0⟩, ⟨0, 0, -1⟩, rfl, by norm_num [V3.normSq_def], h, ?_⟩
+  rw [h]; norm_num
+
+/-- **the rotation does not depend on the sign of the division normal** (the sign an eigen-solver returns is arbitrary): `n`
+    and `−n` give the same `plane_normal`, hence the same matrix, whenever `n` is not parallel to the xy plane -/
+theorem rotation_sign_independent (fn : Fn R) (n : V3 R) (hz : n.z ≠ 0) :
+    Gen.Division.planeNormalOf (⟨-n.x, -n.y, -n.z⟩ : V3 R) = Gen.Division.planeNormalOf n ∧
+    rotationOf fn (⟨-n.x, -n.y, -n.z⟩ : V3 R) = rotationOf fn n := by
+  have h := Division.planeNormalOf_neg n hz
+  refine ⟨h, ?_⟩
+  unfold rotationOf
+  rw [h]
+
+/-- the RAW construction `(1 + p·z, p×z)` (what `Gen.Division.quatOfNormal` is, as a function of the vector it is given) maps a
+    unit `p ≠ −z` to `z` … -/
+theorem quat_maps_normal_raw (fn : Fn R) (n : V3 R) (hn : V3.normSq n = 1) (hne : n ≠ ⟨0, 0, -1⟩)
     (hs : fn.sqrt (2 * (1 + n.z)) * fn.sqrt (2 * (1 + n.z)) = 2 * (1 + n.z)) :
     Gen.Division.matDot (Gen.Division.quatToMatrix (Gen.Division.quatNormalize fn (Gen.Division.quatOfNormal n))) n = ⟨0, 0, 1⟩ :=
   Division.quat_maps_normal fn n hn hne hs
 
-/-- the quaternion `(1 + n·z, n×z)` of a unit normal vanishes exactly at `n = −z` … -/
+/-- … and vanishes exactly at `p = −z` … -/
 theorem quat_norm_zero_iff (n : V3 R) (hn : V3.normSq n = 1) :
     (let q := Gen.Division.quatOfNormal n
      q.1 * q.1 + q.2.1 * q.2.1 + q.2.2.1 * q.2.2.1 + q.2.2.2 * q.2.2.2 = 0) ↔ n = ⟨0, 0, -1⟩ :=
   Division.quat_norm_zero_iff n hn
 
-/-- … where `normalize` divides every component by `sqrt 0`: in floating point 0/0, after which `divide_cell` returns
-    nullopt (checked on the real code by the corpus of the check).  An observation, not a defect: C09 allows a failed division -/
+/-- … where `normalize` would divide every component by `sqrt 0` (0/0 in floating point).  A statement about the raw
+    construction only: the code hands it `plane_normal`, which is never `−z` (second part; see `quat_never_singular`).  On a
+    tree WITHOUT the orientation step this was the reason why a cell with axis `−z` did not divide
+    (known finding `C14:division-depends-on-the-sign-of-the-eigenvector`) -/
 theorem quat_degenerate (fn : Fn R) :
-    Gen.Division.quatOfNormal (⟨0, 0, -1⟩ : V3 R) = (0, 0, 0, 0) ∧
-    Gen.Division.quatNormalize fn (Gen.Division.quatOfNormal (⟨0, 0, -1⟩ : V3 R))
-      = (0 / fn.sqrt 0, 0 / fn.sqrt 0, 0 / fn.sqrt 0, 0 / fn.sqrt 0) :=
-  Division.quat_degenerate fn
+    (Gen.Division.quatOfNormal (⟨0, 0, -1⟩ : V3 R) = (0, 0, 0, 0) ∧
+     Gen.Division.quatNormalize fn (Gen.Division.quatOfNormal (⟨0, 0, -1⟩ : V3 R))
+       = (0 / fn.sqrt 0, 0 / fn.sqrt 0, 0 / fn.sqrt 0, 0 / fn.sqrt 0)) ∧
+    ∀ n : V3 R, Gen.Division.planeNormalOf n ≠ ⟨0, 0, -1⟩ :=
+  ⟨Division.quat_degenerate fn, Division.plane_normal_ne_minus_z⟩
 
-/-- the identity shortcut of the code is taken only for `n = z` -/
-theorem identity_case_sound (n : V3 R) (hn : V3.normSq n = 1) (h : Gen.Division.isIdentityCase n = true) :
-    n = ⟨0, 0, 1⟩ := Division.identity_case_sound n hn h
+/-- the identity shortcut of the code is taken only when `plane_normal = z`, i.e. for the two normals `±z` of the xy plane -/
+theorem identity_case_sound (n : V3 R) (hn : V3.normSq n = 1)
+    (h : Gen.Division.isIdentityCase (Gen.Division.planeNormalOf n) = true) :
+    Gen.Division.planeNormalOf n = ⟨0, 0, 1⟩ ∧ (n = ⟨0, 0, 1⟩ ∨ n = ⟨0, 0, -1⟩) :=
+  Division.identity_case_normal n hn h
 
 /-- plane → xy plane → plane is the identity on points of the plane, for the rotation of any unit quaternion -/
 theorem map_roundtrip (w i j k : R) (h : w * w + i * i + j * j + k * k = 1) (x t : V3 R) :
